@@ -671,6 +671,11 @@ pub fn boxes_for(id: &str, quick: bool) -> Vec<Box_> {
             for ana in [Ana::FpP, Ana::FpNp, Ana::FpLp, Ana::FpFl] {
                 // the simplest systems first: a single task (self-interference only)
                 v.push(mk("1 task T<=6 J<=12 C<=4 + curves", ana, 1, with_curves(sporadic_grid(6, 12)), 4, &[], false));
+                // co-prime periods: near saturation the busy window holds dozens of jobs of the
+                // analysed task and the worst one is far from the start of the window
+                v.push(mk("3 tasks T{2,3,7,19} J=0", ana, 3,
+                    [2u64, 3, 7, 19].iter().map(|t| ArrSpec::Sporadic { t: *t, j: 0 }).collect(),
+                    if matches!(ana, Ana::FpP | Ana::FpNp) { 4 } else { 2 }, &[], false));
                 if quick {
                     v.push(mk("2 tasks T<=5 J<=2 C<=2", ana, 2, sporadic_grid(5, 2), 2, &[], false));
                     v.push(mk("2 tasks curves C<=2", ana, 2, with_curves(sporadic_grid(3, 1)), 2, &[], false));
@@ -708,6 +713,9 @@ pub fn boxes_for(id: &str, quick: bool) -> Vec<Box_> {
                             [3u64, 6, 10].iter().flat_map(|t| [0u64, 3].into_iter().map(move |j| ArrSpec::Sporadic { t: *t, j })).collect(),
                             2, &[3, 20], false));
                     }
+                    v.push(mk("3 tasks T{2,3,7,19} J=0 C<=3 D{6,20}", ana, 3,
+                        [2u64, 3, 7, 19].iter().map(|t| ArrSpec::Sporadic { t: *t, j: 0 }).collect(),
+                        if matches!(ana, Ana::EdfP | Ana::EdfNp) { 3 } else { 2 }, &[6, 20], false));
                     // four tasks: three potential blockers / three interfering tasks in every
                     // deadline order (table look-ups and binary searches over the other tasks
                     // degenerate to the right answer with two entries)
@@ -746,6 +754,7 @@ pub fn boxes_for(id: &str, quick: bool) -> Vec<Box_> {
                 v.push(mk("2 tasks sum_of((T1,J1),(T2,0)) T1{4,6,10} J1{2,5,8} T2{5,7,10} + sporadic, C<=3", Ana::Fifo, 2, sums(&[4, 6, 10], &[2, 5, 8], &[5, 7, 10]), 3, &[], false));
                 v.push(mk("3 tasks sum_of((T1,J1),(T2,0)) T1{6} J1{2,5} T2{5,7} + sporadic, C<=2", Ana::Fifo, 3, sums(&[6], &[2, 5], &[5, 7]), 2, &[], false));
             }
+            v.push(mk("3 tasks T{2,3,7,19} J=0 C<=4", Ana::Fifo, 3, [2u64, 3, 7, 19].iter().map(|t| ArrSpec::Sporadic { t: *t, j: 0 }).collect(), 4, &[], false));
             // four and five tasks (aggregates with more than three components)
             if quick {
                 v.push(mk("4 tasks {(5,0),(6,5)} C<=2", Ana::Fifo, 4, vec![ArrSpec::Sporadic { t: 5, j: 0 }, ArrSpec::Sporadic { t: 6, j: 5 }], 2, &[], false));
